@@ -1,1 +1,1334 @@
-//! C13 - not built yet
+//! C13 - compile-time constant evaluation matches run-time semantics.
+//!
+//! Reference-model monitor. Constant expression trees are generated together with their reference
+//! value (`oracle::c13_refconst`, written from the property text), printed into tiny programs that put
+//! the expression into a position that demands (or records) a constant, and the real typer / evaluator
+//! is run on them. What the compiler evaluated is read back from the `rssl::ir::Module`
+//! (`GlobalVariable.constexpr_value`, the `Array` type layer, `EnumValue.value`, `CaseLabel`, the template
+//! arguments of an instantiation, `thread_group_size`) or through the built-in `assert_eval<T>(e, expected)`
+//! which makes the compiler itself compare.
+//!
+//! Verdicts: a panic anywhere is a violation of this property ("evaluation never aborts");
+//! a value / type different from the reference is a violation; division or modulus by zero that yields a
+//! constant is a violation; "not a constant" for a tree made only of operator/operand-type shapes the
+//! evaluator demonstrably supports (learned from benign operands) is a violation; everything the
+//! reference can not decide (see the oracle's `NoRef`) or rssl rejects for other reasons is skipped and counted.
+
+use crate::json::Json;
+use crate::oracle::c13_refconst::{self as rc, BinOp, Ex, Flags, Res, Ty, UnOp, Val, BIN_OPS, CONSTS, ENUMS, NAMED_TYS, SCALAR_TYS, UN_OPS};
+use crate::par;
+use crate::report::{Ctx, Report, Tier};
+use crate::rng::{hash_str, Rng};
+use crate::rs::{self, Front, Mode, Opts, Outcome, Tgt};
+use crate::CheckDef;
+use rssl::ir;
+use std::collections::HashSet;
+use std::sync::Mutex;
+
+pub fn def() -> CheckDef {
+    CheckDef {
+        id: "C13",
+        salt: 0xC13,
+        rule: "phase 1 learns which operator x operand-type shapes the evaluator supports at all (benign operands 6 and 1 in every scalar type, \
+               case-label position); phase 2 enumerates every unary operator, every cast and every binary operator over all pairs of the boundary \
+               operands (0, 1, -1, 2, 31, 32, 33, INT_MIN, INT_MAX, UINT_MAX, 2^31, 2^32, 2^63, 2^64-1, large / small / fractional floats) in every \
+               scalar type (bool, untyped int literal, int, uint, untyped float literal, half, float, double, an int-based and a uint-based enum, \
+               named static const values): 62 operands in the quick tier, 96 in the thorough tier; phase 3 generates typed random trees of depth 2..5 \
+               over the full operand set (40% of them re-drawn until free of 32-bit wrap-around, so that deep trees are observed even while overflow \
+               still panics). Each tree is observed through assert_eval<T>(e, expected) and one (table) or two (random) further positions in \
+               rotation: static const initialiser, local const, array size, enum value with an implicit next enumerator, case label, template value \
+               argument, numthreads (typer) and numthreads as reported by compile(). Violations are shrunk to the smallest failing sub-tree and keyed \
+               by its operator and operand types. evaluations = type-check / compile executions observed; distinct_nontrivial = distinct program \
+               texts for which the oracle had a reference (a value or 'not constant') and rssl gave a decidable outcome. Not generated: 64-bit literal \
+               suffixes (C08 finding), an implicit enumerator after a bool-typed one (panics with 'Unexpected constant type', not an overflow: C08), \
+               `u`-suffixed literals above UINT_MAX, enum declarations in programs that go through the exporter (INT_MIN enumerator panics there: C08)",
+        assumptions: &[
+            "the reference evaluator (src/oracle/c13_refconst.rs) is a correct reading of the HLSL rules the property names",
+            "evaluation of a trivial expected-value expression such as (int)-5, 7u, -2.5f or (E0)((int)1) is correct (it is the other argument of assert_eval); read-back positions do not depend on it",
+            "the instrumented build (overflow checks on) evaluates the same expressions as a release build; silent wrap-around in release is the same defect seen as a panic here",
+            "lexing of the decimal literals used is exact (property C10)",
+        ],
+        min_distinct: (10_000, 100_000),
+        deadline_s: (50.0, 540.0),
+        run,
+        replay,
+    }
+}
+
+// ------------------------------------------------------------------------------------------------
+// Positions
+// ------------------------------------------------------------------------------------------------
+
+#[derive(Clone, Copy, PartialEq, Eq, Debug, Hash)]
+pub enum Pos {
+    Assert,
+    Global,
+    Local,
+    Array,
+    Enum,
+    Case,
+    Template,
+    NumThreads,
+    /// numthreads observed through the full compile() (reported thread group size)
+    NumThreadsCompiled,
+}
+
+const ALL_POS: [Pos; 9] = [Pos::Assert, Pos::Global, Pos::Local, Pos::Array, Pos::Enum, Pos::Case, Pos::Template, Pos::NumThreads, Pos::NumThreadsCompiled];
+
+impl Pos {
+    fn name(self) -> &'static str {
+        match self {
+            Pos::Assert => "assert_eval",
+            Pos::Global => "static-const",
+            Pos::Local => "local-const",
+            Pos::Array => "array",
+            Pos::Enum => "enum",
+            Pos::Case => "case",
+            Pos::Template => "template-arg",
+            Pos::NumThreads => "numthreads",
+            Pos::NumThreadsCompiled => "numthreads-compiled",
+        }
+    }
+    fn from_name(s: &str) -> Option<Pos> {
+        ALL_POS.iter().copied().find(|p| p.name() == s)
+    }
+    /// Positions that only take integer-like values
+    fn integer_only(self) -> bool {
+        matches!(self, Pos::Array | Pos::Enum | Pos::Template | Pos::NumThreads | Pos::NumThreadsCompiled)
+    }
+}
+
+fn prelude(e: &Ex, extra_enum: bool) -> String {
+    let mut s = String::new();
+    if e.uses_enum() || extra_enum {
+        for d in &ENUMS {
+            s.push_str("enum ");
+            s.push_str(d.name);
+            s.push_str(" { ");
+            for (i, (name, init, _)) in d.values.iter().enumerate() {
+                if i > 0 {
+                    s.push_str(", ");
+                }
+                s.push_str(name);
+                if !init.is_empty() {
+                    s.push_str(" = ");
+                    s.push_str(init);
+                }
+            }
+            s.push_str(" };\n");
+        }
+    }
+    if e.uses_const() {
+        for c in &CONSTS {
+            s.push_str(&format!("static const {} {} = {};\n", c.ty.name(), c.name, c.init));
+        }
+    }
+    s
+}
+
+/// The declared type used by the static const / local const positions: the type of the expression when it can be
+/// named, else (untyped literals, untypable trees) a type picked by the hash of the text
+fn declared_type(e: &Ex, src: &str) -> Ty {
+    let h = hash_str(src);
+    match rc::type_of(e) {
+        Ok(t) if t.is_named() => t,
+        Ok(Ty::FLit) => [Ty::Float, Ty::Double, Ty::Half, Ty::Float][(h % 4) as usize],
+        Ok(_) => [Ty::Int, Ty::UInt, Ty::Float, Ty::Int, Ty::UInt, Ty::Double, Ty::Bool][(h % 7) as usize],
+        Err(_) => [Ty::Int, Ty::UInt, Ty::Float][(h % 3) as usize],
+    }
+}
+
+// ------------------------------------------------------------------------------------------------
+// Observation
+// ------------------------------------------------------------------------------------------------
+
+fn from_ir(c: &ir::Constant, m: &ir::Module) -> Option<Val> {
+    Some(match c {
+        ir::Constant::Bool(b) => Val::Bool(*b),
+        ir::Constant::IntLiteral(v) => Val::Lit(*v),
+        ir::Constant::Int32(v) => Val::Int(*v),
+        ir::Constant::UInt32(v) => Val::UInt(*v),
+        ir::Constant::FloatLiteral(v) => Val::FLit(*v),
+        ir::Constant::Float16(v) => Val::Half(*v),
+        ir::Constant::Float32(v) => Val::Float(*v),
+        ir::Constant::Float64(v) => Val::Double(*v),
+        ir::Constant::Enum(id, inner) => {
+            let name = &m.enum_registry.get_enum_definition(*id).name.node;
+            let k = ENUMS.iter().position(|d| d.name == name.as_str())?;
+            Val::Enum(k as u8, Box::new(from_ir(inner, m)?))
+        }
+        _ => return None,
+    })
+}
+
+fn find_case_label(b: &ir::ScopeBlock) -> Option<ir::Constant> {
+    for st in &b.0 {
+        let found = match &st.kind {
+            ir::StatementKind::CaseLabel(c) => Some(c.clone()),
+            ir::StatementKind::Switch(_, inner) | ir::StatementKind::Block(inner) => find_case_label(inner),
+            _ => None,
+        };
+        if found.is_some() {
+            return found;
+        }
+    }
+    None
+}
+
+/// What one execution showed
+#[derive(Clone, Debug)]
+enum Seen {
+    /// Accepted; the constant read back (None for acceptance-only positions)
+    Value(Option<Val>),
+    /// Accepted, the initialiser was not folded (static const only)
+    Unfolded,
+    /// Accepted, array length / thread group size / raw integer read back
+    Integer(u64),
+    /// enum position: values of EA and (if present) EB
+    EnumValues(Val, Option<Val>),
+    /// Accepted but the thing to read back was not found (harness problem)
+    Lost(String),
+    Diag(String),
+    Panic(par::Caught),
+}
+
+fn observe(text: &str, pos: Pos) -> Seen {
+    if pos == Pos::NumThreadsCompiled {
+        // the evaluation happens in the typer: a panic there is ours; a panic later (exporter) is C08's business
+        match rs::typecheck_text(text) {
+            Front::Panic(c) => return Seen::Panic(c),
+            Front::Diag(d) => return Seen::Diag(d),
+            Front::Ok(_) => {}
+        }
+        return match rs::compile_text(text, &Opts::new(Tgt::Dx, Mode::All)) {
+            Outcome::Ok(pipes) => match pipes.first().and_then(|p| p.stages.first()).and_then(|s| s.thread_group_size) {
+                Some((x, 1, 1)) => Seen::Integer(x as u64),
+                other => Seen::Lost(format!("thread group size {:?}", other)),
+            },
+            Outcome::Diag(d) => Seen::Diag(d),
+            Outcome::Panic(c) => Seen::Lost(format!("panic-after-typer {}", c.signature())),
+            Outcome::Budget { site, ticks } => Seen::Lost(format!("step budget at site {} after {} ticks", site, ticks)),
+        };
+    }
+    let m = match rs::typecheck_text(text) {
+        Front::Ok(m) => m,
+        Front::Diag(d) => return Seen::Diag(d),
+        Front::Panic(c) => return Seen::Panic(c),
+    };
+    let global = |name: &str| m.global_registry.iter().find(|g| !g.is_intrinsic && g.name.node == name);
+    match pos {
+        Pos::Assert | Pos::Local => Seen::Value(None),
+        Pos::Global => match global("g") {
+            Some(g) => match &g.constexpr_value {
+                Some(c) => match from_ir(c, &m) {
+                    Some(v) => Seen::Value(Some(v)),
+                    None => Seen::Lost(format!("constant {:?}", c)),
+                },
+                None => Seen::Unfolded,
+            },
+            None => Seen::Lost("global g".into()),
+        },
+        Pos::Array => match global("a") {
+            Some(g) => {
+                let t = m.type_registry.remove_modifier(g.type_id);
+                match m.type_registry.get_type_layer(t) {
+                    ir::TypeLayer::Array(_, Some(len)) => Seen::Integer(len),
+                    other => Seen::Lost(format!("type layer {:?}", other)),
+                }
+            }
+            None => Seen::Lost("global a".into()),
+        },
+        Pos::Enum => {
+            let mut ea = None;
+            let mut eb = None;
+            for i in 0..m.enum_registry.get_enum_count() {
+                let id = ir::EnumId(i);
+                if m.enum_registry.get_enum_definition(id).name.node != "EE" {
+                    continue;
+                }
+                for v in m.enum_registry.get_values(id) {
+                    let ev = m.enum_registry.get_enum_value(*v);
+                    match ev.name.node.as_str() {
+                        "EA" => ea = from_ir(&ev.value, &m),
+                        "EB" => eb = from_ir(&ev.value, &m),
+                        _ => {}
+                    }
+                }
+            }
+            match ea {
+                Some(a) => Seen::EnumValues(a, eb),
+                None => Seen::Lost("enum value EA".into()),
+            }
+        }
+        Pos::Case => {
+            for id in m.function_registry.iter() {
+                if m.function_registry.get_function_name(id) != "f" {
+                    continue;
+                }
+                if let Some(imp) = m.function_registry.get_function_implementation(id) {
+                    if let Some(c) = find_case_label(&imp.scope_block) {
+                        return match from_ir(&c, &m) {
+                            Some(v) => Seen::Value(Some(v)),
+                            None => Seen::Lost(format!("constant {:?}", c)),
+                        };
+                    }
+                }
+            }
+            Seen::Lost("case label".into())
+        }
+        Pos::Template => {
+            for id in m.function_registry.iter() {
+                if let Some(d) = m.function_registry.get_template_instantiation_data(id) {
+                    if let Some(ir::TypeOrConstant::Constant(c)) = d.template_args.first() {
+                        let c = c.clone().unrestrict();
+                        return match from_ir(&c, &m) {
+                            Some(v) => Seen::Value(Some(v)),
+                            None => Seen::Lost(format!("constant {:?}", c)),
+                        };
+                    }
+                }
+            }
+            Seen::Lost("template instantiation".into())
+        }
+        Pos::NumThreads => match m.pipelines.first().and_then(|p| p.stages.first()).and_then(|s| s.thread_group_size) {
+            Some((x, 1, 1)) => Seen::Integer(x as u64),
+            other => Seen::Lost(format!("thread group size {:?}", other)),
+        },
+        Pos::NumThreadsCompiled => unreachable!(),
+    }
+}
+
+// ------------------------------------------------------------------------------------------------
+// Judging one (expression, position)
+// ------------------------------------------------------------------------------------------------
+
+#[derive(Clone, Debug)]
+enum Verdict {
+    Agree,
+    /// reason (histogram key)
+    Skip(String),
+    Violation {
+        /// full signature
+        signature: String,
+        /// panic | value | type | not-constant | folded-division-by-zero
+        class: &'static str,
+        detail: String,
+    },
+}
+
+struct Examined {
+    verdict: Verdict,
+    text: String,
+    expected: String,
+    observed: String,
+    /// oracle had a reference and rssl gave a decidable outcome
+    nontrivial: bool,
+}
+
+pub struct Support {
+    shapes: HashSet<String>,
+}
+
+impl Support {
+    fn covers(&self, e: &Ex, extra: Option<String>) -> bool {
+        let mut v = Vec::new();
+        rc::shapes(e, &mut v);
+        if let Some(x) = extra {
+            v.push(x);
+        }
+        v.iter().all(|s| self.shapes.contains(s))
+    }
+}
+
+fn is_not_constant_diag(d: &str) -> bool {
+    d.contains("could not be evaluated as a constant expression") || d.contains("array dimensions must be constant") || d.contains("state requires an integer argument")
+}
+
+/// The message of a diagnostic without position and source excerpt
+fn diag_msg(d: &str) -> &str {
+    let line = d.lines().next().unwrap_or("");
+    match line.find("error: ") {
+        Some(i) => &line[i + 7..],
+        None => line,
+    }
+}
+
+/// Histogram key of a diagnostic: the message without quoted parts and numbers
+fn diag_class(d: &str) -> String {
+    let mut out = String::new();
+    let mut in_quote = false;
+    for c in diag_msg(d).chars().take(80) {
+        if c == '\'' {
+            in_quote = !in_quote;
+        } else if !in_quote && !c.is_ascii_digit() && c != '-' {
+            out.push(c);
+        }
+    }
+    out.split_whitespace().collect::<Vec<_>>().join(" ")
+}
+
+fn examine(e: &Ex, pos: Pos, sup: &Support) -> Examined {
+    let mut flags = Flags::default();
+    let res = rc::eval(e, &mut flags);
+    let src = e.to_src();
+    let shape = rc::root_shape(e);
+    let ety = rc::type_of(e).ok();
+
+    // ---- build the program and the expectation ----------------------------------------------
+    let decl_ty = declared_type(e, &src);
+    let needs_extra_enum = matches!(pos, Pos::Global | Pos::Local) && matches!(decl_ty, Ty::Enum(_));
+    let pre = prelude(e, needs_extra_enum);
+    // value expected at the observation point (after the implicit conversion of the position, if any)
+    let mut expected: Res = res.clone();
+    let mut conv_shape: Option<String> = None;
+    if matches!(pos, Pos::Global | Pos::Local) {
+        if let (Res::Val(v), Some(t)) = (&res, ety) {
+            if t != decl_ty {
+                conv_shape = Some(format!("cast:{}<-{}", decl_ty.name(), t.name()));
+                expected = rc::convert(v, decl_ty);
+            }
+        }
+    }
+    let expected_src: Option<String> = match &expected {
+        Res::Val(v) => v.to_src(),
+        _ => None,
+    };
+    let mut with_next = false;
+    let text = match pos {
+        Pos::Assert => {
+            let targ = match (&expected, ety) {
+                // a named constant has the type `const T`, which assert_eval<T> does not accept: compare the value only
+                (Res::Val(_), Some(t)) if t.is_named() && !matches!(e, Ex::ConstRef(_)) => format!("<{}>", t.name()),
+                _ => String::new(),
+            };
+            let x = expected_src.clone().unwrap_or_else(|| "0".to_string());
+            format!("{}void f() {{ assert_eval{}({}, {}); }}\n", pre, targ, src, x)
+        }
+        Pos::Global => format!("{}static const {} g = {};\n", pre, decl_ty.name(), src),
+        Pos::Local => {
+            let x = expected_src.clone().unwrap_or_else(|| "0".to_string());
+            format!("{}void f() {{ const {} x = {}; assert_eval(x, {}); }}\n", pre, decl_ty.name(), src, x)
+        }
+        Pos::Array => format!("{}float a[{}];\n", pre, src),
+        Pos::Enum => {
+            // an implicit enumerator after a bool one panics with 'Unexpected constant type' (not an overflow: C08)
+            with_next = !matches!(ety, Some(Ty::Bool) | None);
+            format!("{}enum EE {{ EA = {}{} }};\n", pre, src, if with_next { ", EB" } else { "" })
+        }
+        Pos::Case => format!("{}void f(int s) {{ switch (s) {{ case {}: break; default: break; }} }}\n", pre, src),
+        Pos::Template => format!("{}template<int N> void t() {{}}\nvoid f() {{ t<{}>(); }}\n", pre, src),
+        Pos::NumThreads | Pos::NumThreadsCompiled => format!("{}[numthreads({}, 1, 1)]\nvoid cs() {{}}\nPipeline P {{ ComputeShader = cs; }}\n", pre, src),
+    };
+
+    let seen = observe(&text, pos);
+    let observed = match &seen {
+        Seen::Value(Some(v)) => v.show(),
+        Seen::Value(None) => "accepted".to_string(),
+        Seen::Unfolded => "accepted, not folded".to_string(),
+        Seen::Integer(n) => format!("{}", n),
+        Seen::EnumValues(a, b) => format!("EA={} EB={}", a.show(), b.as_ref().map(|b| b.show()).unwrap_or_else(|| "-".into())),
+        Seen::Lost(s) => format!("lost: {}", s),
+        Seen::Diag(d) => format!("diagnostic: {}", d.lines().next().unwrap_or("")),
+        Seen::Panic(c) => format!("panic at {}: {}", c.location, c.message),
+    };
+    let expected_text = match &expected {
+        Res::Val(v) => v.show(),
+        Res::NotConst => "not a constant (division or modulus by zero)".to_string(),
+        Res::NoRef(w) => format!("no reference: {}", w),
+    };
+    let done = |verdict: Verdict, nontrivial: bool| Examined {
+        verdict,
+        text: text.clone(),
+        expected: expected_text.clone(),
+        observed: observed.clone(),
+        nontrivial,
+    };
+    let violation = |class: &'static str, signature: String, detail: String| Verdict::Violation { signature, class, detail };
+
+    // ---- a panic is a violation whatever the reference says ---------------------------------
+    if let Seen::Panic(c) = &seen {
+        return done(violation("panic", format!("panic:{}", c.signature()), format!("{} at {}", c.message, c.location)), true);
+    }
+    if let Seen::Lost(s) = &seen {
+        return done(Verdict::Skip(format!("skipped:lost:{}", s.split(' ').next().unwrap_or(""))), false);
+    }
+
+    let supported = sup.covers(e, conv_shape.clone());
+    let not_constant = |d: &str| -> Verdict {
+        if is_not_constant_diag(d) {
+            if supported {
+                violation("not-constant", format!("not-constant:{}:{}", pos.name(), shape), format!("every operator/type shape of the tree is supported, yet: {}", diag_msg(d)))
+            } else {
+                Verdict::Skip("skipped:unsupported-shape".into())
+            }
+        } else {
+            Verdict::Skip(format!("skipped:rejected:{}", diag_class(d)))
+        }
+    };
+
+    match &expected {
+        // ---- no reference: only "does not panic" -------------------------------------------
+        Res::NoRef(w) => done(Verdict::Skip(format!("noref:{}", w.split(" (").next().unwrap_or(w))), false),
+
+        // ---- division / modulus by zero must be "not constant" -------------------------------
+        Res::NotConst => match &seen {
+            Seen::Diag(d) => {
+                if is_not_constant_diag(d) {
+                    done(Verdict::Agree, true)
+                } else if pos == Pos::Assert && d.contains("expected value") {
+                    done(violation("folded-division-by-zero", format!("folded-division-by-zero:{}", shape), diag_msg(d).to_string()), true)
+                } else {
+                    done(Verdict::Skip(format!("skipped:rejected:{}", diag_class(d))), false)
+                }
+            }
+            Seen::Unfolded => done(Verdict::Agree, true),
+            _ => done(violation("folded-division-by-zero", format!("folded-division-by-zero:{}", shape), format!("accepted as a constant: {}", observed)), true),
+        },
+
+        Res::Val(v) => {
+            let n = v.as_integer();
+            if pos.integer_only() && n.is_none() {
+                return done(Verdict::Skip("skipped:position-needs-integer".into()), false);
+            }
+            if matches!(pos, Pos::Template | Pos::NumThreads | Pos::NumThreadsCompiled) && matches!(v.ty(), Ty::Enum(_)) {
+                // rssl does not take enum typed values as template arguments or thread counts: a rule of the position
+                if matches!(seen, Seen::Diag(_)) {
+                    return done(Verdict::Skip("skipped:position-rejects-enum-typed-value".into()), false);
+                }
+            }
+            match pos {
+                Pos::Assert | Pos::Local => {
+                    if expected_src.is_none() {
+                        return done(Verdict::Skip("skipped:expected-not-writable".into()), false);
+                    }
+                    match &seen {
+                        Seen::Value(_) => done(Verdict::Agree, true),
+                        Seen::Diag(d) if d.contains("expected value") => done(violation("value", format!("value:{}:{}", pos.name(), shape), diag_msg(d).to_string()), true),
+                        Seen::Diag(d) if d.contains("expected type") => done(violation("type", format!("type:{}:{}", pos.name(), shape), diag_msg(d).to_string()), true),
+                        Seen::Diag(d) => {
+                            let vd = not_constant(d);
+                            let nt = matches!(vd, Verdict::Violation { .. });
+                            done(vd, nt)
+                        }
+                        _ => done(Verdict::Skip("skipped:unexpected-observation".into()), false),
+                    }
+                }
+                Pos::Global | Pos::Case | Pos::Template => match &seen {
+                    Seen::Value(Some(got)) => {
+                        if got.same(v) {
+                            done(Verdict::Agree, true)
+                        } else if got.ty() != v.ty() {
+                            done(violation("type", format!("type:{}:{}", pos.name(), shape), format!("expected {} got {}", v.show(), got.show())), true)
+                        } else {
+                            done(violation("value", format!("value:{}:{}", pos.name(), shape), format!("expected {} got {}", v.show(), got.show())), true)
+                        }
+                    }
+                    Seen::Unfolded => {
+                        if supported {
+                            done(violation("not-constant", format!("not-constant:{}:{}", pos.name(), shape), "every operator/type shape of the tree is supported, yet the initialiser was not folded".into()), true)
+                        } else {
+                            done(Verdict::Skip("skipped:unsupported-shape".into()), false)
+                        }
+                    }
+                    Seen::Diag(d) => {
+                        let vd = not_constant(d);
+                        let nt = matches!(vd, Verdict::Violation { .. });
+                        done(vd, nt)
+                    }
+                    _ => done(Verdict::Skip("skipped:unexpected-observation".into()), false),
+                },
+                Pos::Array => {
+                    let n = n.unwrap();
+                    match &seen {
+                        Seen::Integer(len) => {
+                            if n >= 1 && n == *len as i128 {
+                                done(Verdict::Agree, true)
+                            } else if n < 0 && v.ty() == Ty::Lit {
+                                done(violation("value", "value:array:negative-literal-size-accepted".into(), format!("size {} accepted as an array of {} elements", n, len)), true)
+                            } else {
+                                done(violation("value", format!("value:array:{}", shape), format!("size {} accepted as an array of {} elements", n, len)), true)
+                            }
+                        }
+                        Seen::Diag(d) => {
+                            if n <= 0 || n > u64::MAX as i128 {
+                                done(Verdict::Agree, true)
+                            } else {
+                                let vd = not_constant(d);
+                                let nt = matches!(vd, Verdict::Violation { .. });
+                                done(vd, nt)
+                            }
+                        }
+                        _ => done(Verdict::Skip("skipped:unexpected-observation".into()), false),
+                    }
+                }
+                Pos::NumThreads | Pos::NumThreadsCompiled => {
+                    let n = n.unwrap();
+                    let in_range = (0..=u32::MAX as i128).contains(&n);
+                    match &seen {
+                        Seen::Integer(x) => {
+                            if in_range && n == *x as i128 {
+                                done(Verdict::Agree, true)
+                            } else if n < 0 && v.ty() == Ty::Lit {
+                                done(violation("value", "value:numthreads:negative-literal-accepted".into(), format!("thread count {} reported as {}", n, x)), true)
+                            } else {
+                                done(violation("value", format!("value:numthreads:{}", shape), format!("thread count {} reported as {}", n, x)), true)
+                            }
+                        }
+                        Seen::Diag(d) => {
+                            if !in_range {
+                                done(Verdict::Agree, true)
+                            } else {
+                                let vd = not_constant(d);
+                                let nt = matches!(vd, Verdict::Violation { .. });
+                                done(vd, nt)
+                            }
+                        }
+                        _ => done(Verdict::Skip("skipped:unexpected-observation".into()), false),
+                    }
+                }
+                Pos::Enum => {
+                    let n = n.unwrap();
+                    match &seen {
+                        Seen::EnumValues(a, b) => {
+                            if a.as_integer() != Some(n) {
+                                return done(violation("value", format!("value:enum:{}", shape), format!("enumerator initialised with {} has value {}", n, a.show())), true);
+                            }
+                            // the implicit next enumerator: previous + 1 where that is representable in the type of the initialiser
+                            let next_defined = match v.ty() {
+                                Ty::Int => n < i32::MAX as i128,
+                                Ty::UInt => n < u32::MAX as i128,
+                                Ty::Enum(k) => n < if ENUMS[k as usize].underlying == Ty::Int { i32::MAX as i128 } else { u32::MAX as i128 },
+                                _ => true,
+                            };
+                            if with_next && next_defined {
+                                match b {
+                                    Some(b) if b.as_integer() == n.checked_add(1) => done(Verdict::Agree, true),
+                                    Some(b) => done(violation("value", "value:enum:implicit-next".into(), format!("enumerator after {} has value {}", n, b.show())), true),
+                                    None => done(Verdict::Skip("skipped:lost:EB".into()), false),
+                                }
+                            } else {
+                                done(Verdict::Agree, true)
+                            }
+                        }
+                        Seen::Diag(d) => {
+                            if d.contains("can not fit in any type") {
+                                // rssl only has 32-bit enums: a range that fits neither int nor uint is rejected
+                                let hi = if with_next { n.saturating_add(1) } else { n };
+                                let fits = (n >= i32::MIN as i128 && hi <= i32::MAX as i128) || (n >= 0 && hi <= u32::MAX as i128);
+                                if fits {
+                                    done(violation("value", format!("value:enum:{}", shape), format!("range {}..{} rejected: {}", n, hi, diag_msg(d))), true)
+                                } else {
+                                    done(Verdict::Agree, true)
+                                }
+                            } else {
+                                let vd = not_constant(d);
+                                let nt = matches!(vd, Verdict::Violation { .. });
+                                done(vd, nt)
+                            }
+                        }
+                        _ => done(Verdict::Skip("skipped:unexpected-observation".into()), false),
+                    }
+                }
+            }
+        }
+    }
+}
+
+// ------------------------------------------------------------------------------------------------
+// Reporting, shrinking
+// ------------------------------------------------------------------------------------------------
+
+fn witness(e: &Ex, pos: Pos, x: &Examined, origin: &str) -> Json {
+    Json::obj()
+        .set("position", pos.name())
+        .set("sexpr", e.to_sexpr())
+        .set("expression", e.to_src())
+        .set("program", &x.text)
+        .set("reference", &x.expected)
+        .set("observed", &x.observed)
+        .set("origin", origin)
+}
+
+/// Smallest sub-tree that still shows a violation of the same class (observed through assert_eval, the static const
+/// initialiser or the case label, which take every type)
+fn shrink(e: &Ex, pos: Pos, class: &str, sup: &Support, report: &mut Report, budget: &mut u32) -> Option<(Ex, Pos, Examined)> {
+    for child in e.children() {
+        let mut tried: Vec<Pos> = Vec::new();
+        for p in [pos, Pos::Assert, Pos::Case] {
+            if tried.contains(&p) {
+                continue;
+            }
+            tried.push(p);
+            if *budget == 0 {
+                return None;
+            }
+            *budget -= 1;
+            let x = examine(child, p, sup);
+            report.evaluations += 1;
+            if let Verdict::Violation { class: c, .. } = &x.verdict {
+                if *c == class {
+                    return Some(shrink(child, p, class, sup, report, budget).unwrap_or((child.clone(), p, x)));
+                }
+            }
+        }
+    }
+    None
+}
+
+/// Observe one expression in one position and record everything
+fn run_one(e: &Ex, pos: Pos, sup: &Support, origin: &str, report: &mut Report) {
+    let x = examine(e, pos, sup);
+    report.evaluations += 1;
+    report.count(&format!("pos:{}", pos.name()));
+    match &x.verdict {
+        Verdict::Agree => {
+            report.count("agree");
+            report.count(&format!("agree:{}", pos.name()));
+        }
+        Verdict::Skip(why) => report.count(why),
+        Verdict::Violation { .. } => {}
+    }
+    if x.nontrivial {
+        report.distinct(hash_str(&x.text));
+        if report.want_sample() && e.node_count() >= 4 {
+            report.sample(Json::obj().set("program", &x.text).set("reference", &x.expected).set("observed", &x.observed));
+        }
+    }
+    if let Verdict::Violation { class, .. } = &x.verdict {
+        let mut budget = 64u32;
+        let (me, mp, mx) = shrink(e, pos, class, sup, report, &mut budget).unwrap_or((e.clone(), pos, x));
+        if let Verdict::Violation { signature, detail, .. } = &mx.verdict {
+            report.count(&format!("violation-class:{}", signature.split(':').next().unwrap_or("")));
+            let summary = format!("{} in {}: `{}` reference {} - {}", signature, mp.name(), me.to_src(), mx.expected, detail);
+            report.violation(signature, &summary, witness(&me, mp, &mx, origin));
+        }
+    }
+}
+
+// ------------------------------------------------------------------------------------------------
+// Operands
+// ------------------------------------------------------------------------------------------------
+
+fn neg(x: Ex) -> Ex {
+    Ex::un(UnOp::Minus, x)
+}
+
+/// Boundary operands of every scalar type. The quick tier enumerates the core set, the thorough tier the full set.
+fn atoms(full: bool) -> Vec<Ex> {
+    let mut v = Vec::new();
+    let mut add = |core: bool, e: Ex| {
+        if core || full {
+            v.push(e);
+        }
+    };
+    add(true, Ex::Bool(false));
+    add(true, Ex::Bool(true));
+    // untyped integer literals
+    for (core, x) in [
+        (true, 0u64),
+        (true, 1),
+        (true, 2),
+        (true, 31),
+        (true, 32),
+        (true, 33),
+        (false, 127),
+        (false, 128),
+        (true, 2147483647),
+        (true, 2147483648),
+        (true, 4294967295),
+        (true, 4294967296),
+        (false, 9223372036854775807),
+        (true, 9223372036854775808),
+        (true, 18446744073709551615),
+    ] {
+        add(core, Ex::Lit(x));
+    }
+    for (core, x) in [(true, 1u64), (true, 2147483648), (false, 4294967296), (false, 9223372036854775808)] {
+        add(core, neg(Ex::Lit(x)));
+    }
+    for (core, x) in [(true, 0i32), (true, 1), (true, -1), (true, 2), (true, 31), (true, 32), (true, 33), (false, -33), (false, 65536), (true, i32::MAX), (true, i32::MIN), (false, i32::MIN + 1)] {
+        add(core, Ex::int(x));
+    }
+    for (core, x) in [(true, 0u32), (true, 1), (true, 2), (true, 31), (true, 32), (true, 33), (false, 65536), (false, 2147483647), (true, 2147483648), (true, u32::MAX)] {
+        add(core, Ex::UInt(x));
+    }
+    // floats: every value is exactly representable in its type (lexing is C10's business)
+    for (core, x) in [
+        (true, 0.0f32),
+        (true, 1.0),
+        (false, 0.5),
+        (true, 2.5),
+        (false, 31.0),
+        (false, 16777216.0),
+        (true, 2147483648.0),
+        (true, 3e9),
+        (true, 4294967296.0),
+        (false, 1e10),
+        (true, f32::MAX),
+        (true, 1e-45),
+    ] {
+        add(core, Ex::Float(x));
+    }
+    for (core, x) in [(true, 1.0f32), (false, 2.5), (false, 2147483648.0), (true, 3e9)] {
+        add(core, neg(Ex::Float(x)));
+    }
+    for (core, x) in [(false, 0.0f64), (false, 1.0), (true, 2.5), (false, 2147483647.5), (true, 4294967295.5), (true, 1e300), (false, 5e-324)] {
+        add(core, Ex::Double(x));
+    }
+    add(true, neg(Ex::Double(0.75)));
+    for (core, x) in [(false, 0.0f64), (false, 1.0), (true, 0.1), (false, 16777217.0), (true, 1e39)] {
+        add(core, Ex::FLit(x));
+    }
+    add(true, neg(Ex::FLit(1.5)));
+    for (core, x) in [(false, 0.0f32), (false, 1.0), (true, 1.5), (true, 65504.0), (true, 5.9604644775390625e-8)] {
+        add(core, Ex::Half(x));
+    }
+    for (k, d) in ENUMS.iter().enumerate() {
+        for (i, (name, _, _)) in d.values.iter().enumerate() {
+            let core = matches!(*name, "E0_Z" | "E0_N" | "E0_MAX" | "E0_MIN" | "E1_A" | "E1_S" | "E1_ALL");
+            add(core, Ex::EnumRef(k as u8, i as u8));
+        }
+    }
+    for (i, c) in CONSTS.iter().enumerate() {
+        add(matches!(c.name, "K_I" | "K_U"), Ex::ConstRef(i as u8));
+    }
+    v
+}
+
+fn atoms_of(all: &[Ex], t: Ty) -> Vec<Ex> {
+    all.iter().filter(|a| rc::type_of(a) == Ok(t)).cloned().collect()
+}
+
+/// Benign operand of a type: first operand 6 (bool: true, enums: 2 and 31), second operand 1 - no operator
+/// overflows, divides by zero or shifts out of range on these
+fn benign(t: Ty, second: bool) -> Ex {
+    let n = if second { 1u32 } else { 6 };
+    match t {
+        Ty::Bool => Ex::Bool(true),
+        Ty::Lit => Ex::Lit(n as u64),
+        Ty::Int => Ex::int(n as i32),
+        Ty::UInt => Ex::UInt(n),
+        Ty::FLit => Ex::FLit(n as f64),
+        Ty::Half => Ex::Half(n as f32),
+        Ty::Float => Ex::Float(n as f32),
+        Ty::Double => Ex::Double(n as f64),
+        Ty::Enum(0) => Ex::EnumRef(0, if second { 1 } else { 2 }),
+        Ty::Enum(_) => Ex::EnumRef(1, if second { 1 } else { 2 }),
+    }
+}
+
+// ------------------------------------------------------------------------------------------------
+// Phase 1: which shapes does the evaluator support at all?
+// ------------------------------------------------------------------------------------------------
+
+fn probe_universe() -> Vec<Ex> {
+    let mut v = Vec::new();
+    for op in UN_OPS {
+        for t in SCALAR_TYS {
+            v.push(Ex::un(op, benign(t, false)));
+        }
+    }
+    for to in NAMED_TYS {
+        for t in SCALAR_TYS {
+            v.push(Ex::cast(to, benign(t, false)));
+        }
+    }
+    for op in BIN_OPS {
+        for a in SCALAR_TYS {
+            for b in SCALAR_TYS {
+                v.push(Ex::bin(op, benign(a, false), benign(b, true)));
+            }
+        }
+    }
+    v
+}
+
+/// Shapes the repository's own unit tests (typer/tests/evaluator_tests.rs) show to be supported: "not a constant"
+/// for one of these with benign operands is a violation, not a gap
+fn must_support() -> Vec<String> {
+    let mut v = Vec::new();
+    for op in BIN_OPS {
+        if op.is_logic() {
+            v.push(format!("{}:bool,bool", op.name()));
+            continue;
+        }
+        for t in ["literal-int", "int", "uint"] {
+            v.push(format!("{}:{},{}", op.name(), t, t));
+        }
+        v.push(format!("{}:bool,bool", op.name()));
+        if op.is_compare() {
+            v.push(format!("{}:literal-float,literal-float", op.name()));
+        }
+    }
+    for s in ["plus:int", "plus:uint", "plus:float", "neg:int", "neg:literal-int", "neg:float", "neg:double", "neg:half", "not:bool", "not:int", "not:uint", "bitnot:int", "bitnot:uint", "bitnot:literal-int", "bitnot:bool"] {
+        v.push(s.to_string());
+    }
+    for to in ["int", "uint"] {
+        for from in ["literal-int", "int", "uint", "bool"] {
+            v.push(format!("cast:{}<-{}", to, from));
+        }
+    }
+    v
+}
+
+fn learn_support(ctx: &Ctx, total: &mut Report) -> Support {
+    let universe = probe_universe();
+    let found: Mutex<HashSet<String>> = Mutex::new(HashSet::new());
+    let empty = Support { shapes: HashSet::new() };
+    let r = par::run_cases(ctx, universe.len() as u64, |i, report| {
+        let e = &universe[i as usize];
+        let text = format!("{}void f(int s) {{ switch (s) {{ case {}: break; default: break; }} }}\n", prelude(e, false), e.to_src());
+        report.evaluations += 1;
+        match observe(&text, Pos::Case) {
+            Seen::Value(Some(_)) => {
+                report.count("probe:supported");
+                found.lock().unwrap().insert(rc::root_shape(e));
+            }
+            Seen::Panic(c) => {
+                // benign operands must not panic either
+                let x = examine(e, Pos::Case, &empty);
+                report.violation(&format!("panic:{}", c.signature()), &format!("benign operands: `{}` panics: {}", e.to_src(), c.message), witness(e, Pos::Case, &x, "probe"));
+            }
+            _ => report.count("probe:unsupported"),
+        }
+    });
+    total.merge(r);
+    let shapes = found.into_inner().unwrap();
+    let sup = Support { shapes };
+    for s in must_support() {
+        if !sup.shapes.contains(&s) {
+            if let Some(e) = universe.iter().find(|e| rc::root_shape(e) == s) {
+                let x = examine(e, Pos::Case, &empty);
+                total.violation(
+                    &format!("not-constant:case:{}", s),
+                    &format!("`{}` (benign operands, shape exercised by the repository's own evaluator tests) is reported as not constant", e.to_src()),
+                    witness(e, Pos::Case, &x, "probe"),
+                );
+            }
+        }
+    }
+    total.count_n("supported-shapes", sup.shapes.len() as u64);
+    sup
+}
+
+// ------------------------------------------------------------------------------------------------
+// Phase 2: exhaustive operator x boundary operand table
+// ------------------------------------------------------------------------------------------------
+
+/// Positions beyond assert_eval for the i-th case: one in rotation (all that apply for tiny tables)
+fn rotation(i: u64) -> Pos {
+    if i % 48 == 47 {
+        return Pos::NumThreadsCompiled;
+    }
+    const R: [Pos; 16] = [
+        Pos::Global,
+        Pos::Case,
+        Pos::Array,
+        Pos::Enum,
+        Pos::Local,
+        Pos::Template,
+        Pos::Global,
+        Pos::NumThreads,
+        Pos::Case,
+        Pos::Enum,
+        Pos::Array,
+        Pos::Local,
+        Pos::Template,
+        Pos::Global,
+        Pos::Enum,
+        Pos::Case,
+    ];
+    R[(i % 16) as usize]
+}
+
+fn table_case(atoms: &[Ex], index: u64) -> Ex {
+    let n = atoms.len() as u64;
+    let unary = UN_OPS.len() as u64 * n;
+    let casts = NAMED_TYS.len() as u64 * n;
+    if index < unary {
+        return Ex::un(UN_OPS[(index / n) as usize], atoms[(index % n) as usize].clone());
+    }
+    let index = index - unary;
+    if index < casts {
+        return Ex::cast(NAMED_TYS[(index / n) as usize], atoms[(index % n) as usize].clone());
+    }
+    let index = index - casts;
+    let op = BIN_OPS[(index / (n * n)) as usize];
+    let rest = index % (n * n);
+    Ex::bin(op, atoms[(rest / n) as usize].clone(), atoms[(rest % n) as usize].clone())
+}
+
+fn gcd(a: u64, b: u64) -> u64 {
+    if b == 0 {
+        a
+    } else {
+        gcd(b, a % b)
+    }
+}
+
+fn table_size(atoms: &[Ex]) -> u64 {
+    let n = atoms.len() as u64;
+    (UN_OPS.len() as u64 + NAMED_TYS.len() as u64) * n + BIN_OPS.len() as u64 * n * n
+}
+
+fn count_features(e: &Ex, report: &mut Report) {
+    let mut fl = Flags::default();
+    let res = rc::eval(e, &mut fl);
+    report.count(match &res {
+        Res::Val(_) => "reference:value",
+        Res::NotConst => "reference:not-constant",
+        Res::NoRef(_) => "reference:none",
+    });
+    if fl.wrapped {
+        report.count("reference:wraps-around");
+    }
+    if let Res::Val(v) = &res {
+        report.count(&format!("result-type:{}", v.ty().name()));
+    }
+    report.count(&format!("root:{}", rc::root_shape(e).split(':').next().unwrap_or("")));
+    report.max("max:nodes", e.node_count() as u64);
+}
+
+// ------------------------------------------------------------------------------------------------
+// Phase 3: random trees
+// ------------------------------------------------------------------------------------------------
+
+struct Gen<'a> {
+    rng: Rng,
+    by_type: &'a [(Ty, Vec<Ex>)],
+}
+
+impl Gen<'_> {
+    fn atom(&mut self, t: Ty) -> Ex {
+        let list = &self.by_type.iter().find(|(x, _)| *x == t).unwrap().1;
+        self.rng.pick(list).clone()
+    }
+    fn any_ty(&mut self) -> Ty {
+        // integers dominate: that is where the evaluator computes
+        const W: [Ty; 20] = [
+            Ty::Int,
+            Ty::Int,
+            Ty::Int,
+            Ty::Int,
+            Ty::UInt,
+            Ty::UInt,
+            Ty::UInt,
+            Ty::UInt,
+            Ty::Lit,
+            Ty::Lit,
+            Ty::Lit,
+            Ty::Bool,
+            Ty::Bool,
+            Ty::Float,
+            Ty::Float,
+            Ty::Double,
+            Ty::Half,
+            Ty::FLit,
+            Ty::Enum(0),
+            Ty::Enum(1),
+        ];
+        *self.rng.pick(&W)
+    }
+    fn arith(&mut self) -> BinOp {
+        *self.rng.pick(&[BinOp::Add, BinOp::Sub, BinOp::Mul, BinOp::Div, BinOp::Mod, BinOp::Shl, BinOp::Shr, BinOp::And, BinOp::Or, BinOp::Xor, BinOp::Add, BinOp::Sub, BinOp::Mul, BinOp::Shl])
+    }
+    fn compare(&mut self) -> BinOp {
+        *self.rng.pick(&[BinOp::Lt, BinOp::Le, BinOp::Gt, BinOp::Ge, BinOp::Eq, BinOp::Ne])
+    }
+
+    /// A tree of the wanted type (by the oracle's typing rules), at most `depth` operators deep
+    fn tree(&mut self, want: Ty, depth: u32) -> Ex {
+        if depth == 0 || self.rng.chance(1, 7) {
+            return self.atom(want);
+        }
+        let d = depth - 1;
+        let roll = self.rng.below(100);
+        match want {
+            Ty::Bool => {
+                if roll < 45 {
+                    let t = self.any_ty();
+                    let op = self.compare();
+                    let a = self.tree(t, d);
+                    let b = self.tree(t, d);
+                    Ex::bin(op, a, b)
+                } else if roll < 65 {
+                    let (ta, tb) = (self.any_ty(), self.any_ty());
+                    let op = if self.rng.chance(1, 2) { BinOp::LAnd } else { BinOp::LOr };
+                    let a = self.tree(ta, d);
+                    let b = self.tree(tb, d);
+                    Ex::bin(op, a, b)
+                } else if roll < 80 {
+                    let t = self.any_ty();
+                    Ex::un(UnOp::Not, self.tree(t, d))
+                } else if roll < 95 {
+                    let t = self.any_ty();
+                    Ex::cast(Ty::Bool, self.tree(t, d))
+                } else {
+                    self.atom(want)
+                }
+            }
+            Ty::Lit => {
+                if roll < 75 {
+                    let op = self.arith();
+                    let a = self.tree(Ty::Lit, d);
+                    let b = self.tree(Ty::Lit, d);
+                    Ex::bin(op, a, b)
+                } else if roll < 95 {
+                    let op = *self.rng.pick(&[UnOp::Minus, UnOp::BitNot, UnOp::Plus]);
+                    Ex::un(op, self.tree(Ty::Lit, d))
+                } else {
+                    self.atom(want)
+                }
+            }
+            Ty::Int | Ty::UInt => {
+                if roll < 55 {
+                    let op = self.arith();
+                    // the other operand: same type mostly, sometimes a type of lower rank (implicit conversion)
+                    let lower: &[Ty] = if want == Ty::Int { &[Ty::Int, Ty::Int, Ty::Int, Ty::Lit, Ty::Bool, Ty::Enum(0)] } else { &[Ty::UInt, Ty::UInt, Ty::UInt, Ty::Int, Ty::Lit, Ty::Bool, Ty::Enum(1)] };
+                    let other = *self.rng.pick(lower);
+                    let a = self.tree(want, d);
+                    let b = self.tree(other, d);
+                    if self.rng.chance(1, 2) || op.is_shift() {
+                        Ex::bin(op, a, b)
+                    } else {
+                        Ex::bin(op, b, a)
+                    }
+                } else if roll < 62 && want == Ty::Int {
+                    let op = self.arith();
+                    let a = self.tree(Ty::Bool, d);
+                    let b = self.tree(Ty::Bool, d);
+                    Ex::bin(op, a, b)
+                } else if roll < 75 {
+                    let op = *self.rng.pick(&[UnOp::Minus, UnOp::BitNot, UnOp::Plus, UnOp::Minus]);
+                    Ex::un(op, self.tree(want, d))
+                } else if roll < 96 {
+                    let t = self.any_ty();
+                    Ex::cast(want, self.tree(t, d))
+                } else {
+                    self.atom(want)
+                }
+            }
+            Ty::Half | Ty::Float | Ty::Double => {
+                if roll < 60 {
+                    let t = self.any_ty();
+                    Ex::cast(want, self.tree(t, d))
+                } else if roll < 85 {
+                    let op = if self.rng.chance(3, 4) { UnOp::Minus } else { UnOp::Plus };
+                    Ex::un(op, self.tree(want, d))
+                } else if roll < 90 {
+                    // float arithmetic: no reference, must not panic
+                    let op = *self.rng.pick(&[BinOp::Add, BinOp::Sub, BinOp::Mul, BinOp::Div, BinOp::Mod]);
+                    let a = self.tree(want, d);
+                    let b = self.tree(want, d);
+                    Ex::bin(op, a, b)
+                } else {
+                    self.atom(want)
+                }
+            }
+            Ty::FLit => {
+                if roll < 50 {
+                    Ex::un(UnOp::Minus, self.tree(Ty::FLit, d))
+                } else {
+                    self.atom(want)
+                }
+            }
+            Ty::Enum(_) => {
+                if roll < 40 {
+                    let op = self.arith();
+                    let a = self.tree(want, d);
+                    let b = self.tree(want, d);
+                    Ex::bin(op, a, b)
+                } else if roll < 60 {
+                    let op = *self.rng.pick(&[UnOp::Minus, UnOp::BitNot, UnOp::Plus]);
+                    Ex::un(op, self.tree(want, d))
+                } else if roll < 90 {
+                    let t = *self.rng.pick(&[Ty::Int, Ty::UInt, Ty::Lit, Ty::Bool, Ty::Int, Ty::UInt, Ty::Float, Ty::Enum(0), Ty::Enum(1)]);
+                    Ex::cast(want, self.tree(t, d))
+                } else {
+                    self.atom(want)
+                }
+            }
+        }
+    }
+}
+
+fn random_tree(seed: u64, index: u64, by_type: &[(Ty, Vec<Ex>)]) -> Ex {
+    let mut g = Gen {
+        rng: Rng::for_case(seed, 0xC13_3, index),
+        by_type,
+    };
+    let calm = g.rng.chance(2, 5);
+    let depth = 2 + g.rng.below(4) as u32; // 2..=5
+    let mut last = None;
+    for _ in 0..12 {
+        let want = g.any_ty();
+        let e = g.tree(want, depth);
+        if !calm {
+            return e;
+        }
+        let mut fl = Flags::default();
+        let r = rc::eval(&e, &mut fl);
+        if matches!(r, Res::Val(_)) && !fl.wrapped && !e.is_leaf() {
+            return e;
+        }
+        last = Some(e);
+    }
+    last.unwrap()
+}
+
+/// All positions that make sense for the tree (integer-only positions only for integer-like references)
+fn positions_for(e: &Ex, index: u64, how_many: usize) -> Vec<Pos> {
+    let mut out = vec![Pos::Assert];
+    let mut fl = Flags::default();
+    let integer = match rc::eval(e, &mut fl) {
+        Res::Val(v) => v.as_integer().is_some(),
+        _ => true,
+    };
+    let mut i = index;
+    let mut guard = 0;
+    while out.len() < 1 + how_many && guard < 40 {
+        let mut p = rotation(i);
+        if p == Pos::NumThreadsCompiled && e.uses_enum() {
+            // the exporter panics on the INT_MIN enumerator of the common declarations (C08's finding, not an evaluation)
+            p = Pos::NumThreads;
+        }
+        i += 1;
+        guard += 1;
+        if p.integer_only() && !integer {
+            continue;
+        }
+        if !out.contains(&p) {
+            out.push(p);
+        }
+    }
+    out
+}
+
+// ------------------------------------------------------------------------------------------------
+// run / replay
+// ------------------------------------------------------------------------------------------------
+
+fn sanity(report: &mut Report) -> bool {
+    // the declarations every program may start with must mean what the oracle assumes
+    let probe = Ex::bin(BinOp::Add, Ex::EnumRef(0, 0), Ex::ConstRef(0));
+    let mut text = prelude(&probe, true);
+    for (k, d) in ENUMS.iter().enumerate() {
+        for (i, (name, _, _)) in d.values.iter().enumerate() {
+            text.push_str(&format!("static const {} v_{}_{} = {};\n", d.name, k, i, name));
+        }
+    }
+    report.evaluations += 1;
+    let m = match rs::typecheck_text(&text) {
+        Front::Ok(m) => m,
+        Front::Diag(d) => {
+            report.inconclusive(&format!("the common declarations are rejected: {}", d.lines().next().unwrap_or("")));
+            return false;
+        }
+        Front::Panic(c) => {
+            report.inconclusive(&format!("the common declarations panic: {}", c.message));
+            return false;
+        }
+    };
+    let value_of = |name: &str| m.global_registry.iter().find(|g| !g.is_intrinsic && g.name.node == name).and_then(|g| g.constexpr_value.as_ref()).and_then(|c| from_ir(c, &m));
+    let mut ok = true;
+    for (i, c) in CONSTS.iter().enumerate() {
+        match value_of(c.name) {
+            Some(v) if v.same(&rc::const_value(i as u8)) => {}
+            other => {
+                report.inconclusive(&format!("named constant {} reads back as {:?}", c.name, other));
+                ok = false;
+            }
+        }
+    }
+    for (k, d) in ENUMS.iter().enumerate() {
+        for i in 0..d.values.len() {
+            let mut fl = Flags::default();
+            let want = rc::eval(&Ex::EnumRef(k as u8, i as u8), &mut fl);
+            match (value_of(&format!("v_{}_{}", k, i)), want) {
+                (Some(v), Res::Val(w)) if v.same(&w) => {}
+                (other, _) => {
+                    report.inconclusive(&format!("enumerator {} reads back as {:?}", d.values[i].0, other));
+                    ok = false;
+                }
+            }
+        }
+    }
+    ok
+}
+
+fn run(ctx: &Ctx) -> Report {
+    let mut total = Report::new();
+    if !sanity(&mut total) {
+        return total;
+    }
+    let sup = learn_support(ctx, &mut total);
+    let all = atoms(ctx.tier == Tier::Thorough);
+    let everything = atoms(true);
+    let by_type: Vec<(Ty, Vec<Ex>)> = SCALAR_TYS.iter().map(|t| (*t, atoms_of(&everything, *t))).collect();
+    for (t, list) in &by_type {
+        total.count_n(&format!("operands:{}", t.name()), list.len() as u64);
+        if list.is_empty() {
+            total.inconclusive(&format!("no boundary operand of type {}", t.name()));
+        }
+    }
+
+    // phase 2: exhaustive table
+    // the table may use at most 65% of the time: on an overloaded machine the random trees still get their share
+    let n_table = table_size(&all);
+    let mut table_ctx = ctx.clone();
+    table_ctx.deadline_s = ctx.deadline_s * 0.65;
+    // visit the table in a strided order, so that a run cut short by the deadline has still sampled every operator
+    let mut stride = 1_000_003u64;
+    while gcd(stride, n_table) != 1 {
+        stride += 2;
+    }
+    let mut table = par::run_cases(&table_ctx, n_table, |index, report| {
+        let index = ((index as u128 * stride as u128) % n_table as u128) as u64;
+        let e = table_case(&all, index);
+        count_features(&e, report);
+        report.count("table-cases");
+        for p in positions_for(&e, index, 1) {
+            run_one(&e, p, &sup, "table", report);
+        }
+    });
+    table.exhaustive = Some(table.counters.get("table-cases").copied().unwrap_or(0) == n_table);
+    total.merge(table);
+
+    // phase 3: random trees
+    let n_random = ctx.tier.pick(70_000, 1_500_000);
+    let seed = ctx.seed;
+    let random = par::run_cases(ctx, n_random, |index, report| {
+        let e = random_tree(seed, index, &by_type);
+        count_features(&e, report);
+        report.count("random-trees");
+        for p in positions_for(&e, index, 2) {
+            run_one(&e, p, &sup, "random", report);
+        }
+    });
+    total.merge(random);
+    // "cases_run" of the three pools were added up by merge; the note of a shortened pool is kept
+    if ctx.tier == Tier::Thorough {
+        total.notes.push("thorough tier: same table, 20x more random trees".into());
+    }
+    total
+}
+
+fn replay(ctx: &Ctx, witness: &Json) -> Report {
+    let mut report = Report::new();
+    let Some(e) = witness.get_str("sexpr").and_then(Ex::from_sexpr) else {
+        report.inconclusive("witness has no readable expression (sexpr)");
+        return report;
+    };
+    let Some(pos) = witness.get_str("position").and_then(Pos::from_name) else {
+        report.inconclusive("witness has no position");
+        return report;
+    };
+    let mut one = ctx.clone();
+    one.start = std::time::Instant::now();
+    one.deadline_s = 300.0;
+    let mut scratch = Report::new();
+    let sup = learn_support(&one, &mut scratch);
+    report.evaluations += scratch.evaluations;
+    run_one(&e, pos, &sup, "replay", &mut report);
+    report
+}
